@@ -61,7 +61,7 @@ theorem dropWhile_congr (p q : α → Bool) : (l : List α) → (∀ x ∈ l, p 
 end generic
 
 variable {V : Type} (O : VOrd V)
-abbrev Entry (V : Type) := V × Nat
+abbrev Entry (V : Type) := V × List UInt8   -- (indexed value, document id)
 def leE (a b : Entry V) : Prop := O.cmp a.1 b.1 ≤ 0
 
 /-- forward IterateRange as cursor steps over the (sorted) entries of one index -/
